@@ -83,3 +83,12 @@ Definition run_ref_terms (tbl : itbl) (sp : qspec) (st : settings QcNum)
   map (fun c => let '(tb, ob, ax) := c in
        map term_out (ref_terms QcNum q_interp_add (interp_mul_q tbl) (normsys_code QcNum st) (histosys_code QcNum st)
                                (clip_sample QcNum st) (clip_bin QcNum st) sp (theta_of tb) (theta_of ob) (theta_of ax))) cases.
+
+(* ---- batched model (C10) ---- *)
+Require Import PV.Batch.
+Definition run_batched (tbl : itbl) (sp : qspec) (st : settings QcNum) (rows : list (list Qc)) :=
+  match build QcNum sp with
+  | Err e => inl (err_code e)
+  | Ok m => inr (reads_in_range QcNum sp (cfg_channels QcNum sp) (cfg_samples QcNum sp) (cfg_modifiers QcNum sp) m,
+                 qoutss (expected_actualdata_batched QcNum q_interp_add (interp_mul_q tbl) sp st m rows))
+  end.
